@@ -23,9 +23,13 @@ structure PInv (s : SS) : Prop where
   bound   : ∀ q ∈ pending s, 1 ≤ q ∧ q ≤ s.nextSeq
   cover   : ∀ q, 1 ≤ q → q ≤ s.nextSeq → q ∈ s.outd ∨ q ∈ s.dropped ∨ q ∈ pending s
   ordered : Ordered s.dropped s.outd
+  nodupP  : (procSet s).Nodup
+  fresh   : ∀ q ∈ pending s, q ∉ s.outd ∧ q ∉ s.dropped
+  doneB   : ∀ q, q ∈ s.outd ∨ q ∈ s.dropped → 1 ≤ q ∧ q ≤ s.nextSeq
 
 theorem pinv_init : PInv {} := by
-  refine ⟨by simp [procSet], by simp, by simp [pending, procSet], ?_, ?_⟩
+  refine ⟨by simp [procSet], by simp, by simp [pending, procSet], ?_, ?_, by simp [procSet],
+    by simp [pending, procSet], by simp⟩
   · intro q h1 h2; simp at h2; omega
   · intro pre q post h; simp at h
 
@@ -54,26 +58,29 @@ theorem ordered_mono {dropped outd : List Nat} (h : Ordered dropped outd) (x : N
   · exact Or.inl h2
   · exact Or.inr (List.mem_append_left _ h2)
 
-/-- a step that keeps the processor's events as a set, the queue, `nextSeq`, `outd`, `dropped` -/
-theorem pinv_same {s s' : SS} (h : PInv s) (hp : ∀ x, x ∈ procSet s' ↔ x ∈ procSet s)
+/-- a step that permutes the processor's events and keeps the queue, `nextSeq`, `outd`, `dropped` -/
+theorem pinv_same {s s' : SS} (h : PInv s) (hp : (procSet s').Perm (procSet s))
     (hq : s'.queue = s.queue) (hn : s'.nextSeq = s.nextSeq)
     (ho : s'.outd = s.outd) (hd : s'.dropped = s.dropped) : PInv s' := by
+  have hmem : ∀ x, x ∈ procSet s' ↔ x ∈ procSet s := fun x => hp.mem_iff
   have hpend : ∀ x, x ∈ pending s' ↔ x ∈ pending s := by
-    intro x; simp only [pending, List.mem_append, hp, hq]
-  refine ⟨?_, by rw [hq]; exact h.sorted, ?_, ?_, by rw [ho, hd]; exact h.ordered⟩
-  · intro x hx y hy; rw [hq] at hy; exact h.older x ((hp x).1 hx) y hy
+    intro x; simp only [pending, List.mem_append, hmem, hq]
+  refine ⟨?_, by rw [hq]; exact h.sorted, ?_, ?_, by rw [ho, hd]; exact h.ordered, hp.nodup_iff.2 h.nodupP, ?_, ?_⟩
+  · intro x hx y hy; rw [hq] at hy; exact h.older x ((hmem x).1 hx) y hy
   · intro q hq'; rw [hn]; exact h.bound q ((hpend q).1 hq')
   · intro q h1 h2; rw [hn] at h2; rw [ho, hd]
     rcases h.cover q h1 h2 with h3 | h3 | h3
     · exact Or.inl h3
     · exact Or.inr (Or.inl h3)
     · exact Or.inr (Or.inr ((hpend q).2 h3))
+  · intro q hq'; rw [ho, hd]; exact h.fresh q ((hpend q).1 hq')
+  · intro q hq'; rw [ho, hd] at hq'; rw [hn]; exact h.doneB q hq'
 
 /-- stream.put -/
 theorem pinv_put {s s' : SS} (h : PInv s) (hp : procSet s' = procSet s)
     (hq : s'.queue = s.queue ++ [s.nextSeq + 1]) (hn : s'.nextSeq = s.nextSeq + 1)
     (ho : s'.outd = s.outd) (hd : s'.dropped = s.dropped) : PInv s' := by
-  refine ⟨?_, ?_, ?_, ?_, by rw [ho, hd]; exact h.ordered⟩
+  refine ⟨?_, ?_, ?_, ?_, by rw [ho, hd]; exact h.ordered, by rw [hp]; exact h.nodupP, ?_, ?_⟩
   · intro x hx y hy
     rw [hp] at hx; rw [hq] at hy
     rcases List.mem_append.1 hy with hy | hy
@@ -103,14 +110,26 @@ theorem pinv_put {s s' : SS} (h : PInv s) (hp : procSet s' = procSet s)
         · exact Or.inr (Or.inr (Or.inl h3))
         · exact Or.inr (Or.inr (Or.inr (Or.inl h3)))
     · exact Or.inr (Or.inr (Or.inr (Or.inr (by omega))))
+  · intro x hx
+    rw [ho, hd]
+    simp only [pending, hp, hq, List.mem_append, List.mem_singleton] at hx
+    rcases hx with hx | hx | hx
+    · exact h.fresh x (by simp [pending, hx])
+    · exact h.fresh x (by simp [pending, hx])
+    · subst hx
+      constructor
+      · intro hc; have := (h.doneB _ (Or.inl hc)).2; omega
+      · intro hc; have := (h.doneB _ (Or.inr hc)).2; omega
+  · intro x hx; rw [ho, hd] at hx; rw [hn]; have := h.doneB x hx; omega
 
 /-- stream.get: the head of the queue moves to the processor -/
 theorem pinv_get {s s' : SS} (h : PInv s) (q : Nat) (t : List Nat) (hqu : s.queue = q :: t)
-    (hp : ∀ x, x ∈ procSet s' ↔ (x ∈ procSet s ∨ x = q)) (hq : s'.queue = t) (hn : s'.nextSeq = s.nextSeq)
+    (hp : procSet s' = procSet s ++ [q]) (hq : s'.queue = t) (hn : s'.nextSeq = s.nextSeq)
     (ho : s'.outd = s.outd) (hd : s'.dropped = s.dropped) : PInv s' := by
   have hsort := h.sorted; rw [hqu] at hsort
+  have hmem : ∀ x, x ∈ procSet s' ↔ (x ∈ procSet s ∨ x = q) := by intro x; rw [hp]; simp
   have hpend : ∀ x, x ∈ pending s' ↔ x ∈ pending s := by
-    intro x; simp only [pending, List.mem_append, hp, hq, hqu, List.mem_cons]
+    intro x; simp only [pending, List.mem_append, hmem, hq, hqu, List.mem_cons]
     constructor
     · rintro ((h1 | h1) | h1)
       · exact Or.inl h1
@@ -120,10 +139,10 @@ theorem pinv_get {s s' : SS} (h : PInv s) (q : Nat) (t : List Nat) (hqu : s.queu
       · exact Or.inl (Or.inl h1)
       · exact Or.inl (Or.inr h1)
       · exact Or.inr h1
-  refine ⟨?_, by rw [hq]; exact (List.pairwise_cons.1 hsort).2, ?_, ?_, by rw [ho, hd]; exact h.ordered⟩
+  refine ⟨?_, by rw [hq]; exact (List.pairwise_cons.1 hsort).2, ?_, ?_, by rw [ho, hd]; exact h.ordered, ?_, ?_, ?_⟩
   · intro x hx y hy
     rw [hq] at hy
-    rcases (hp x).1 hx with hx | rfl
+    rcases (hmem x).1 hx with hx | rfl
     · exact h.older x hx y (by rw [hqu]; exact List.mem_cons_of_mem _ hy)
     · exact (List.pairwise_cons.1 hsort).1 y hy
   · intro x hx; rw [hn]; exact h.bound x ((hpend x).1 hx)
@@ -132,13 +151,23 @@ theorem pinv_get {s s' : SS} (h : PInv s) (q : Nat) (t : List Nat) (hqu : s.queu
     · exact Or.inl h3
     · exact Or.inr (Or.inl h3)
     · exact Or.inr (Or.inr ((hpend x).2 h3))
+  · rw [hp]
+    refine List.nodup_append.2 ⟨h.nodupP, by simp, ?_⟩
+    intro a ha b hb; simp at hb; subst hb
+    have := h.older a ha b (by rw [hqu]; simp); omega
+  · intro x hx; rw [ho, hd]; exact h.fresh x ((hpend x).1 hx)
+  · intro x hx; rw [ho, hd] at hx; rw [hn]; exact h.doneB x hx
 
 /-- discard / collapse: one of the processor's events moves to `dropped` -/
 theorem pinv_drop {s s' : SS} (h : PInv s) (q : Nat)
-    (hsub : ∀ x ∈ procSet s', x ∈ procSet s)
-    (hrest : ∀ x ∈ procSet s, x = q ∨ x ∈ procSet s') (hq : s'.queue = s.queue) (hn : s'.nextSeq = s.nextSeq)
+    (hperm : (procSet s).Perm (q :: procSet s')) (hq : s'.queue = s.queue) (hn : s'.nextSeq = s.nextSeq)
     (ho : s'.outd = s.outd) (hd : s'.dropped = s.dropped ++ [q]) : PInv s' := by
-  refine ⟨?_, by rw [hq]; exact h.sorted, ?_, ?_, by rw [ho, hd]; exact ordered_mono h.ordered q⟩
+  have hsub : ∀ x ∈ procSet s', x ∈ procSet s := fun x hx => hperm.mem_iff.2 (List.mem_cons_of_mem _ hx)
+  have hrest : ∀ x ∈ procSet s, x = q ∨ x ∈ procSet s' := fun x hx => List.mem_cons.1 (hperm.mem_iff.1 hx)
+  have hnd : (q :: procSet s').Nodup := hperm.nodup_iff.1 h.nodupP
+  have hqin : q ∈ procSet s := hperm.mem_iff.2 (List.mem_cons_self ..)
+  refine ⟨?_, by rw [hq]; exact h.sorted, ?_, ?_, by rw [ho, hd]; exact ordered_mono h.ordered q,
+    (List.nodup_cons.1 hnd).2, ?_, ?_⟩
   · intro x hx y hy; rw [hq] at hy; exact h.older x (hsub x hx) y hy
   · intro x hx; rw [hn]
     simp only [pending, List.mem_append, hq] at hx
@@ -156,13 +185,38 @@ theorem pinv_drop {s s' : SS} (h : PInv s) (q : Nat)
         · exact Or.inr (Or.inl (by simp))
         · exact Or.inr (Or.inr (by simp [pending, h4]))
       · exact Or.inr (Or.inr (by simp [pending, hq, h3]))
+  · intro x hx
+    rw [ho, hd]
+    simp only [pending, List.mem_append, hq] at hx
+    have hxq : x ≠ q := by
+      rcases hx with hx | hx
+      · intro hc; subst hc; exact (List.nodup_cons.1 hnd).1 hx
+      · intro hc; subst hc; have := h.older x hqin x hx; omega
+    have hf := h.fresh x (by
+      rcases hx with hx | hx
+      · simp [pending, hsub x hx]
+      · simp [pending, hx])
+    refine ⟨hf.1, ?_⟩
+    simp only [List.mem_append, List.mem_singleton, not_or]
+    exact ⟨hf.2, hxq⟩
+  · intro x hx; rw [hn]
+    rw [ho, hd] at hx
+    rcases hx with hx | hx
+    · exact h.doneB x (Or.inl hx)
+    · simp only [List.mem_append, List.mem_singleton] at hx
+      rcases hx with hx | rfl
+      · exact h.doneB x (Or.inr hx)
+      · exact h.bound x (by simp [pending, hqin])
 
 /-- router.Out: the oldest of the processor's events is handed to the output -/
-theorem pinv_out {s s' : SS} (h : PInv s) (q : Nat) (hin : q ∈ procSet s) (hmin : ∀ x ∈ procSet s, q ≤ x)
-    (hsub : ∀ x ∈ procSet s', x ∈ procSet s)
-    (hrest : ∀ x ∈ procSet s, x = q ∨ x ∈ procSet s') (hq : s'.queue = s.queue) (hn : s'.nextSeq = s.nextSeq)
+theorem pinv_out {s s' : SS} (h : PInv s) (q : Nat) (hmin : ∀ x ∈ procSet s, q ≤ x)
+    (hperm : (procSet s).Perm (q :: procSet s')) (hq : s'.queue = s.queue) (hn : s'.nextSeq = s.nextSeq)
     (ho : s'.outd = s.outd ++ [q]) (hd : s'.dropped = s.dropped) : PInv s' := by
-  refine ⟨?_, by rw [hq]; exact h.sorted, ?_, ?_, ?_⟩
+  have hsub : ∀ x ∈ procSet s', x ∈ procSet s := fun x hx => hperm.mem_iff.2 (List.mem_cons_of_mem _ hx)
+  have hrest : ∀ x ∈ procSet s, x = q ∨ x ∈ procSet s' := fun x hx => List.mem_cons.1 (hperm.mem_iff.1 hx)
+  have hnd : (q :: procSet s').Nodup := hperm.nodup_iff.1 h.nodupP
+  have hin : q ∈ procSet s := hperm.mem_iff.2 (List.mem_cons_self ..)
+  refine ⟨?_, by rw [hq]; exact h.sorted, ?_, ?_, ?_, (List.nodup_cons.1 hnd).2, ?_, ?_⟩
   · intro x hx y hy; rw [hq] at hy; exact h.older x (hsub x hx) y hy
   · intro x hx; rw [hn]
     simp only [pending, List.mem_append, hq] at hx
@@ -189,11 +243,32 @@ theorem pinv_out {s s' : SS} (h : PInv s) (q : Nat) (hin : q ∈ procSet s) (hmi
       rcases h.cover q' h1 (by omega) with h4 | h4 | h4
       · exact Or.inl h4
       · exact Or.inr h4
-      · -- q' still pending: either with the processor (then not older than x) or queued (then newer)
-        simp only [pending, List.mem_append] at h4
+      · simp only [pending, List.mem_append] at h4
         rcases h4 with h4 | h4
         · have := hmin q' h4; omega
         · have := h.older x hin q' h4; omega
+  · intro x hx
+    rw [ho, hd]
+    simp only [pending, List.mem_append, hq] at hx
+    have hxq : x ≠ q := by
+      rcases hx with hx | hx
+      · intro hc; subst hc; exact (List.nodup_cons.1 hnd).1 hx
+      · intro hc; subst hc; have := h.older x hin x hx; omega
+    have hf := h.fresh x (by
+      rcases hx with hx | hx
+      · simp [pending, hsub x hx]
+      · simp [pending, hx])
+    refine ⟨?_, hf.2⟩
+    simp only [List.mem_append, List.mem_singleton, not_or]
+    exact ⟨hf.1, hxq⟩
+  · intro x hx; rw [hn]
+    rw [ho, hd] at hx
+    rcases hx with hx | hx
+    · simp only [List.mem_append, List.mem_singleton] at hx
+      rcases hx with hx | rfl
+      · exact h.doneB x (Or.inl hx)
+      · exact h.bound x (by simp [pending, hin])
+    · exact h.doneB x (Or.inr hx)
 
 theorem mem_erase_sub {l : List Nat} {q x : Nat} (h : x ∈ l.erase q) : x ∈ l := List.mem_of_mem_erase h
 
@@ -215,17 +290,17 @@ theorem pinv_step {s s' : SS} {op : Op} (h : PInv s) (hs : step? s op = some s')
   | charge =>
     simp only [step?] at hs
     split at hs
-    · simp at hs; subst hs; exact pinv_same h (fun _ => Iff.rfl) rfl rfl rfl rfl
+    · simp at hs; subst hs; exact pinv_same h (List.Perm.refl _) rfl rfl rfl rfl
     · simp at hs
   | pop =>
     simp only [step?] at hs
     split at hs
-    · simp at hs; subst hs; exact pinv_same h (fun _ => Iff.rfl) rfl rfl rfl rfl
+    · simp at hs; subst hs; exact pinv_same h (List.Perm.refl _) rfl rfl rfl rfl
     · simp at hs
   | attach =>
     simp only [step?] at hs
     split at hs
-    · split at hs <;> (simp at hs; subst hs; exact pinv_same h (fun _ => Iff.rfl) rfl rfl rfl rfl)
+    · split at hs <;> (simp at hs; subst hs; exact pinv_same h (List.Perm.refl _) rfl rfl rfl rfl)
     · simp at hs
   | get q =>
     simp only [step?] at hs
@@ -238,32 +313,32 @@ theorem pinv_step {s s' : SS} {op : Op} (h : PInv s) (hs : step? s op = some s')
         | nil => simp [hc] at hq
         | cons a t => simp [hc] at hq; subst hq; simp
       refine pinv_get h q s.queue.tail hqueue ?_ rfl rfl rfl rfl
-      intro x; simp [procSet, hih, hpr]
+      simp [procSet, hih, hpr]
     · simp at hs
   | getTimeout =>
     simp only [step?] at hs
     split at hs
-    · simp at hs; subst hs; exact pinv_same h (fun _ => Iff.rfl) rfl rfl rfl rfl
+    · simp at hs; subst hs; exact pinv_same h (List.Perm.refl _) rfl rfl rfl rfl
     · simp at hs
   | leave =>
     simp only [step?] at hs
     split at hs
-    · simp at hs; subst hs; exact pinv_same h (fun _ => Iff.rfl) rfl rfl rfl rfl
+    · simp at hs; subst hs; exact pinv_same h (List.Perm.refl _) rfl rfl rfl rfl
     · simp at hs
   | detach =>
     simp only [step?] at hs
     split at hs
-    · simp at hs; subst hs; exact pinv_same h (fun _ => Iff.rfl) rfl rfl rfl rfl
+    · simp at hs; subst hs; exact pinv_same h (List.Perm.refl _) rfl rfl rfl rfl
     · simp at hs
   | commit q =>
     simp only [step?] at hs
     split at hs
-    · simp at hs; subst hs; exact pinv_same h (fun _ => Iff.rfl) rfl rfl rfl rfl
+    · simp at hs; subst hs; exact pinv_same h (List.Perm.refl _) rfl rfl rfl rfl
     · simp at hs
   | timeout =>
     simp only [step?] at hs
     split at hs
-    · split at hs <;> (simp at hs; subst hs; exact pinv_same h (fun _ => Iff.rfl) rfl rfl rfl rfl)
+    · split at hs <;> (simp at hs; subst hs; exact pinv_same h (List.Perm.refl _) rfl rfl rfl rfl)
     · simp at hs
   | hold q =>
     simp only [step?] at hs
@@ -271,7 +346,7 @@ theorem pinv_step {s s' : SS} {op : Op} (h : PInv s) (hs : step? s op = some s')
     · rename_i hg
       simp at hs; subst hs
       refine pinv_same h ?_ rfl rfl rfl rfl
-      intro x; simp [procSet, hg.2]
+      simp [procSet, hg.2, List.append_assoc]
     · simp at hs
   | propagate q =>
     simp only [step?] at hs
@@ -280,20 +355,14 @@ theorem pinv_step {s s' : SS} {op : Op} (h : PInv s) (hs : step? s op = some s')
       simp at hs; subst hs
       obtain ⟨_, hh⟩ := hg
       refine pinv_same h ?_ rfl rfl rfl rfl
-      intro x
-      simp only [procSet, List.mem_append, List.mem_cons]
-      constructor
-      · rintro (((rfl | h1) | h1) | h1)
-        · exact Or.inl (Or.inr hh)
-        · exact Or.inl (Or.inl h1)
-        · exact Or.inl (Or.inr (mem_erase_sub h1))
-        · exact Or.inr h1
-      · rintro ((h1 | h1) | h1)
-        · exact Or.inl (Or.inl (Or.inr h1))
-        · rcases mem_erase_or (q := q) h1 with rfl | h2
-          · exact Or.inl (Or.inl (Or.inl rfl))
-          · exact Or.inl (Or.inr h2)
-        · exact Or.inr h1
+      -- (q :: propd) ++ held.erase q ++ inhand  ~  propd ++ held ++ inhand
+      simp only [procSet]
+      refine List.Perm.append_right _ ?_
+      have h1 : (s.propd ++ s.held).Perm (s.propd ++ (q :: s.held.erase q)) :=
+        List.Perm.append_left _ (List.perm_cons_erase hh)
+      have h2 : (s.propd ++ (q :: s.held.erase q)).Perm (q :: (s.propd ++ s.held.erase q)) :=
+        List.perm_middle
+      exact (h1.trans h2).symm
     · simp at hs
   | drop q =>
     simp only [step?] at hs
@@ -301,34 +370,16 @@ theorem pinv_step {s s' : SS} {op : Op} (h : PInv s) (hs : step? s op = some s')
     · -- the event in hand is discarded / collapsed
       rename_i hg
       simp at hs; subst hs
-      refine pinv_drop h q ?_ ?_ rfl rfl rfl rfl
-      · intro x hx; simp [procSet] at hx ⊢; rcases hx with hx | hx <;> simp [hx]
-      · intro x hx
-        simp only [procSet, hg.2, Option.toList_some, Option.toList_none, List.mem_append, List.mem_singleton,
-          List.not_mem_nil, or_false] at hx ⊢
-        rcases hx with (h3 | h3) | h3
-        · exact Or.inr (Or.inl h3)
-        · exact Or.inr (Or.inr h3)
-        · exact Or.inl h3
+      refine pinv_drop h q ?_ rfl rfl rfl rfl
+      simp only [procSet, hg.2, Option.toList_some, Option.toList_none, List.append_nil]
+      exact List.perm_append_singleton _ _ |>.trans (List.Perm.refl _)
     · split at hs
       · -- a re-injected event is discarded downstream
         rename_i hg
         simp at hs; subst hs
-        refine pinv_drop h q ?_ ?_ rfl rfl rfl rfl
-        · intro x hx
-          simp only [procSet, List.mem_append] at hx ⊢
-          rcases hx with (hx | hx) | hx
-          · exact Or.inl (Or.inl (mem_erase_sub hx))
-          · exact Or.inl (Or.inr hx)
-          · exact Or.inr hx
-        · intro x hx
-          simp only [procSet, List.mem_append] at hx ⊢
-          rcases hx with (hx | hx) | hx
-          · rcases mem_erase_or (q := q) hx with rfl | h2
-            · exact Or.inl rfl
-            · exact Or.inr (Or.inl (Or.inl h2))
-          · exact Or.inr (Or.inl (Or.inr hx))
-          · exact Or.inr (Or.inr hx)
+        refine pinv_drop h q ?_ rfl rfl rfl rfl
+        simp only [procSet, List.append_assoc]
+        exact (List.perm_cons_erase hg.2).append_right _
       · simp at hs
   | out q =>
     simp only [step?] at hs
@@ -339,34 +390,16 @@ theorem pinv_step {s s' : SS} {op : Op} (h : PInv s) (hs : step? s op = some s')
       · -- a re-injected (held) event goes out
         rename_i hin
         simp at hs; subst hs
-        refine pinv_out h q (by simp [procSet, hin]) hmin ?_ ?_ rfl rfl rfl rfl
-        · intro x hx
-          simp only [procSet, List.mem_append] at hx ⊢
-          rcases hx with (hx | hx) | hx
-          · exact Or.inl (Or.inl (mem_erase_sub hx))
-          · exact Or.inl (Or.inr hx)
-          · exact Or.inr hx
-        · intro x hx
-          simp only [procSet, List.mem_append] at hx ⊢
-          rcases hx with (hx | hx) | hx
-          · rcases mem_erase_or (q := q) hx with rfl | h2
-            · exact Or.inl rfl
-            · exact Or.inr (Or.inl (Or.inl h2))
-          · exact Or.inr (Or.inl (Or.inr hx))
-          · exact Or.inr (Or.inr hx)
+        refine pinv_out h q hmin ?_ rfl rfl rfl rfl
+        simp only [procSet, List.append_assoc]
+        exact (List.perm_cons_erase hin).append_right _
       · split at hs
         · -- the event in hand goes out
           rename_i hih
           simp at hs; subst hs
-          refine pinv_out h q (by simp [procSet, hih]) hmin ?_ ?_ rfl rfl rfl rfl
-          · intro x hx; simp [procSet] at hx ⊢; rcases hx with hx | hx <;> simp [hx]
-          · intro x hx
-            simp only [procSet, hih, Option.toList_some, Option.toList_none, List.mem_append, List.mem_singleton,
-              List.not_mem_nil, or_false] at hx ⊢
-            rcases hx with (h3 | h3) | h3
-            · exact Or.inr (Or.inl h3)
-            · exact Or.inr (Or.inr h3)
-            · exact Or.inl h3
+          refine pinv_out h q hmin ?_ rfl rfl rfl rfl
+          simp only [procSet, hih, Option.toList_some, Option.toList_none, List.append_nil]
+          exact List.perm_append_singleton _ _
         · simp at hs
     · simp at hs
 
